@@ -688,6 +688,30 @@ pub fn err_program(r: &mut Rng) -> String {
     }
 }
 
+/// The same program dressed in text that is not plain ASCII: multi-byte characters before
+/// and inside the code (columns and byte offsets part ways), CRLF line endings, tabs.
+pub fn non_ascii_variant(src: &str, r: &mut Rng) -> String {
+    let mut s = src.to_string();
+    if r.below(2) == 0 {
+        s = format!("# été — 日本語 🦀 ʼnaïve café\n{s}");
+    }
+    if r.below(2) == 0 {
+        s = s.replacen("'x'", "'é𝄞x'", 2).replacen("\"x\"", "\"ßx\u{0301}\"", 2);
+    }
+    if r.below(3) == 0 {
+        s = s.replace(" | ", "\t|\t");
+    }
+    if r.below(3) == 0 {
+        s = s.replace('\n', "\r\n");
+    }
+    if r.below(3) == 0 {
+        // a derived column with a non-ASCII name and literal, then whatever follows
+        s = s.replacen("\n", "\n# ↓ данные\n", 1);
+        s.push_str("derive {`größe` = 'straße' + 'łódź'}\n");
+    }
+    s
+}
+
 /// A near-duplicate of a program: same length, same beginning and end, one
 /// small edit in between (what an editor re-compiling a buffer produces).
 pub fn variant_of(src: &str, r: &mut Rng) -> String {
@@ -855,6 +879,15 @@ const DIALECT_SENSITIVE: &[&str] = &[
 
 impl<'a> Gen<'a> {
     pub fn program(&self, r: &mut Rng) -> String {
+        let p = self.program_ascii(r);
+        if r.below(10) == 0 {
+            non_ascii_variant(&p, r)
+        } else {
+            p
+        }
+    }
+
+    fn program_ascii(&self, r: &mut Rng) -> String {
         match r.below(14) {
             0..=3 => r.pick(&self.corpus.programs).clone(),
             4..=6 => gen_program(r, self.corpus),
